@@ -62,6 +62,11 @@ where
 }
 
 pub trait EntryStoreTrait {
+    /// Put the entries in their final order and give them their final index.
+    ///
+    /// Entries of a store may reference entries of another store of the same pack, so every
+    /// store must be ordered before any store computes its layout from such references.
+    fn finalize_order(&mut self) {}
     fn finalize(self: Box<Self>) -> Box<dyn WritableTell>;
 }
 
@@ -71,7 +76,7 @@ where
     VN: VariantName + std::fmt::Debug + Sync + 'static,
     Entry: FullEntryTrait<PN, VN> + Send + 'static,
 {
-    fn finalize(mut self: Box<Self>) -> Box<dyn WritableTell> {
+    fn finalize_order(&mut self) {
         set_entry_idx(&mut self.entries);
         if let Some(keys) = &self.schema.sort_keys {
             let compare = |a: &Entry, b: &Entry| a.compare(&keys, b);
@@ -92,6 +97,10 @@ where
                 }
             }
         }
+    }
+
+    fn finalize(mut self: Box<Self>) -> Box<dyn WritableTell> {
+        self.finalize_order();
 
         for entry in &mut self.entries {
             self.schema.process(entry);
